@@ -30,7 +30,8 @@ ASSUMPTIONS = [
     "not judged (statement/documentation silent): options within 1e-9 of the value, '!=' inside the tolerance, strict "
     "comparisons exactly on a threshold that was unit-converted, intermediate values violating a !condition or a "
     "dimension bound, property lines after a modification, unanchored formats, conditions/options on arrays, "
-    "values 0 / '' / none (C14)",
+    "values 0 / '' / none (C14), values with MORE axes than declared, a missing dimension that is declared without "
+    "any bound ([:]), the accept direction for int-node options that are not integral in the node's unit",
 ]
 
 
@@ -655,7 +656,10 @@ MANIFEST = dict(
     text="Bounded exhaustive enumeration of single-node DIP programs: every type (int, float, str, bool; scalar and "
          "rank 1-2 arrays) x every constraint kind and pair of kinds (options per-line / list / two lists / in other "
          "units, !condition with all six comparison operators in both orientations plus interval, disjunction and "
-         "negation forms, three anchored !format expressions, all dimension-bound forms, declarations) x value paths "
+         "negation forms, int nodes against thresholds/options that are not integral in the node's unit (250 cm, "
+         "2500 mm, 0.0025 km vs m), three anchored !format expressions, all dimension-bound forms incl. values that "
+         "lack a bounded declared dimension (scalar / flat list, also via modification and sliced injection), "
+         "declarations) x value paths "
          "(definition, 1-2 modifications also in other units, declaration) x final values on / 1e-9 / 1e-5 / 1e-3 off / "
          "far off the boundary, at root and inside a group between constrained decoy nodes.  Coverage statement: for "
          "every generated text parse() returns exactly when the reference says all constraints hold on the final "
